@@ -6,6 +6,7 @@ import Driver.Audit
 import Driver.OpsPoly
 import Driver.OpsOptim
 import Driver.OpsSpline
+import Driver.OpsSplineSM
 import Driver.OpsFit
 import Driver.OpsMem
 import Driver.OpsSparse
@@ -40,7 +41,7 @@ def firstSome (fs : List (Unit → Option String)) : Option String :=
 def runAll (op grp prec : String) (args : Array String) : String :=
   match firstSome [
       fun _ => runPoly op grp prec args, fun _ => runOptim op grp prec args,
-      fun _ => runSpline op grp prec args, fun _ => runFit op grp prec args,
+      fun _ => runSpline op grp prec args, fun _ => runSplineSM op grp prec args, fun _ => runFit op grp prec args,
       fun _ => runMem op grp prec args, fun _ => runSparse op grp prec args,
       fun _ => runManif op grp prec args, fun _ => runDiff op grp prec args,
       fun _ => runConc op grp prec args, fun _ => runConv op grp prec args] with
